@@ -8,5 +8,6 @@ open AgdbColl
 #print axioms C19_remove_value_terminates
 #print axioms C19_reserve_terminates
 #print axioms C19_value_terminates
+#print axioms C19_values_terminates_partial
 #print axioms C19_every_history_runs
 #print axioms C19_tombstone_counterexample
